@@ -21,6 +21,7 @@ using Sb = rlbox::rlbox_sandbox<SbxA>;
 
 // ---- fixed layout of the scenario inside the region (mirrored by the Lean model) ------------------
 static constexpr uint32_t STR = 0x100, ALT = 0x200, ARR = 0x300, CELL = 0x400, STRUCT = 0x500, ALTARR = 0x340, ALTSTRUCT = 0x540;
+static constexpr uint32_t IDX = 0x600;               // an int in sandbox memory used as an array index (variant `idx`, C17)
 static const char STR_INIT[] = "hello";              // followed by NUL, then filler
 static const char ALT_INIT[] = "WORLD!!";
 static constexpr int N_ARR = 4;
@@ -80,6 +81,9 @@ static void adversary(const std::string& a)
     at(STR)[2] = 0;
   } else if (a == "unterminate") {         // no terminator for the next 200 bytes
     std::memset(at(STR) + 5, 'U', 200); at(STR)[205] = 0;
+  } else if (a == "idxbig") { poke32(IDX, 6);
+  } else if (a == "idxsmall") { poke32(IDX, 1);
+  } else if (a == "idxneg") { poke32(IDX, 0xFFFFFFFFu);
   } else if (a == "nullcell") {
     poke32(CELL, 0);
   } else if (a == "retarget") {            // the pointer cell now designates other data of the same kind
@@ -297,6 +301,17 @@ static std::string run_variant(const std::string& variant, const std::string& sr
         return "addr=" + show_off(reinterpret_cast<void*>(a)) + " chk0=" + c0;
       }, 16);
     });
+  }
+  if (variant == "idx") {
+    // C17: a fixed-size array in application memory indexed by an int that lives in sandbox memory (src = in: it holds 1, out: 6)
+    poke32(IDX, src == "in" ? 1 : 6);
+    tainted<int[4], SbxA> arr;
+    for (int i = 0; i < 4; i++) arr[i] = 11 * (i + 1);
+    auto pi = mkptr<int>(IDX);
+    arm();
+    auto& el = arr[*pi];
+    disarm();
+    return "off=" + std::to_string(reinterpret_cast<const char*>(std::addressof(el)) - reinterpret_cast<const char*>(std::addressof(arr)));
   }
   if (variant == "copymem") {
     auto p = mkptr<char>(STR);
